@@ -281,3 +281,18 @@ def chunks(items, n):
     n = max(1, n)
     size = max(1, (len(items) + n - 1) // n)
     return [items[i:i + size] for i in range(0, len(items), size)]
+
+
+def guard(t, pid, case, fn, *args, **kw):
+    """Run one case; an unexpected exception while the real code (or the comparison of its junk result) is
+    evaluated is a finding about the code under test, not a harness crash."""
+    try:
+        return fn(*args, **kw)
+    except HarnessError:
+        raise
+    except Exception as exc:  # noqa
+        tb = traceback.format_exc().strip().splitlines()
+        c = dict(case)
+        c["unexpected_exception"] = tb[-6:]
+        t.violation("%s: unexpected %s while evaluating the case: %s" % (pid, type(exc).__name__, exc), c)
+        return None
